@@ -20,11 +20,14 @@ HEADERS = [
 ACTION_TYPES = [
     "send_message", "send_message", "send_message", "save_value", "add_to_group", "remove_from_group",
     "save_flow_result", "set_contact_language", "set_contact_name", "add_contact_urn",
+    "set_contact_status", "set_contact_timezone", "set_contact_channel",
 ]
 ROUTER_TYPES = ["wait_for_response", "wait_for_response", "split_by_value", "split_by_group", "split_random",
                 "start_new_flow", "call_webhook", "transfer_airtime"]
 NO_ARG_TESTS = ["has_number", "has_text", "has_email", "has_date", "has_time", "has_state", "has_error"]
-TEST_TYPES = ["", "", "", "has_any_word", "has_phrase", "has_only_phrase", "has_beginning", "has_number_eq", "has_pattern"]
+TEST_TYPES = ["", "", "", "has_any_word", "has_phrase", "has_only_phrase", "has_beginning", "has_number_eq", "has_pattern",
+              "all_words", "has_only_text", "has_number_lt", "has_number_lte", "has_number_gt", "has_number_gte",
+              "has_date_lt", "has_date_eq", "has_date_gt", "has_phone", "has_district", "has_category"]
 # ordinary answers, plus words whose generated category name collides with a reserved one
 # ("Other", "Expired", "Success", …): they are ordinary condition values all the same
 WORDS = ["yes", "no", "maybe", "red", "blue", "7", "stop", "go", "Alpha", "beta gamma",
@@ -245,6 +248,12 @@ class SheetGen:
             row["message_text"] = rng.choice(["eng", "fra"])
         elif t == "set_contact_name":
             row["message_text"] = f"Name {n}"
+        elif t == "set_contact_status":
+            row["message_text"] = rng.choice(["active", "blocked", "stopped", "archived"])
+        elif t == "set_contact_timezone":
+            row["message_text"] = rng.choice(["Africa/Nairobi", "Europe/Berlin"])
+        elif t == "set_contact_channel":
+            row["message_text"] = rng.choice(["Channel 1", "WhatsApp line"])
         elif t == "add_contact_urn":
             row["message_text"] = f"+1555{n:04d}"
             if rng.random() < 0.5:
